@@ -11,7 +11,7 @@ import pytree
 ROOT = os.path.dirname(os.path.dirname(os.path.dirname(os.path.abspath(__file__))))
 PY312 = "/root/.pyenv/versions/3.12.1/bin/python3"
 
-SPEC_ONLY_FIELDS = {"src", "elifForm", "star", "parTarget", "bareGen", "noTrail", "ell"}
+SPEC_ONLY_FIELDS = {"src", "elifForm", "star", "parTarget", "bareGen", "noTrail", "ell", "parItems"}
 
 
 OPTIONAL_NAMES = {"arg", "asname", "module", "name", "rest", "kind"}
